@@ -117,4 +117,10 @@ CHECKS = {
         text="Programs = the 54 definitions of formal-verification/FormalVerification.lean; each must be textually identical to the same-named definition extracted from the current circuits, the whole-file digests must agree, repeated extractions at (30,4) and at a sweep of other dimensions (incl. two-block keccak inputs: batch >= 3) must be identical and succeed, and every SemaphoreMTB identifier used by Main.lean and FormalVerification/*.lean must be defined in the committed model. On disagreement the replay file carries the unified diff.",
         note="Textual equality is stronger than semantic equality (a reordering that does not change meaning is reported); that is what 'exactly what extraction produces' asks for.",
     ),
+    "C19": dict(
+        level="model_checking",
+        technique="TLA+ file-system + command machine Cli.tla (setup, gen-test-params, prove, verify, convert-to-raw, damaged/removed files, tampered proofs; exit status and stdout kind per command) model-checked over all command sequences; fixed covering pipelines and TLC-simulated sequences executed with the binary built from the tree, plus hundreds of independently randomised proofs through gen-test-params | prove | verify",
+        text="After every command of every executed behaviour the exit status (0 exactly when Cli.tla says the result is right), the kind of standard output (prove: exactly one JSON proof line and nothing else; empty on failure) and a non-empty stderr on failure are compared with the spec: right / other known / missing / unknown mode, own / other / non-numeric input hash, own / independent / converted / truncated / garbage / absent keys, tampered proofs, unprovable parameters, both modes and two dimensions. The pipe loop exposes rare proof shapes (short or otherwise unusual coordinates) that only independent proofs reach.",
+        note="prove with keys of the other KNOWN mode is left open by the property (the keys file does not record its mode; for batch size 1 the two circuits' witness layouts coincide) and by the spec ('any'). Dimensions (1,1), (2,1).",
+    ),
 }
